@@ -248,6 +248,12 @@ def check_case(prop, c, o, m, verdict, known, counters, sch):
         counters['records_satisfying_wire_ok'] += sum(int(w.split('/')[0]) for w in woks)
         if m.get('reenc') != 'ok':
             fail('canonical', f'emitted frame differs from the canonical encoding of its own content ({m.get("reenc", "")[:60]})'); return
+        if ' sok:1' not in (m.get('raw_full') or ''):
+            verdict.violation(dict(replay, kind='precondition', broken='stream_ok (hypothesis of C01_stream_roundtrip_bytes / C01_stream_roundtrip_frames) is false for a stream the implementation emitted'),
+                              f'{c["id"]}: the emitted stream does not satisfy the hypothesis of the whole-stream round-trip theorem', no_input=True)
+            counters['precondition'] += 1
+            return
+        counters['streams_satisfying_stream_ok'] += 1
     counters['clean'] += 1
 
 
